@@ -1,13 +1,81 @@
 (* C13 - model state: labels and cluster membership always describe one partition.
-   Statements only. *)
-From Coq Require Import List Arith.
+   Statements only; proofs in Proofs/StateP.v.  The model (Model/State.v) is an explicit heap of
+   Python objects with identities; [step] executes one operation on the current state. *)
+From Coq Require Import List Arith Permutation.
 Import ListNotations.
-From Ticc Require Import Model.State Model.Repop.
+From Ticc Require Import Model.State Model.Repop Proofs.StateP.
+Notation Inv := Ticc.Model.State.Inv.
 
-(* the hazard the phases avoid: assigning labels to a SHALLOW copy re-derives
-   membership on the cluster objects it shares with its source - the source keeps
-   its labels but its clusters' member lists change (so the invariant is not
-   vacuous, and copying the clusters first, as every phase does, is what makes it hold) *)
+(* in every state handed on by any sequence of operations (assign labels, shallow / deep copy,
+   repopulate, update statistics, optimise, relabel) there are exactly K clusters and cluster k's
+   member list is exactly the ascending list of the points labelled k *)
+Theorem C13_init : forall K m la ba, let '(h, s) := init K m la ba in WF h s /\ Inv h s.
+Proof. exact init_wf_inv. Qed.
+Print Assumptions C13_init.
+
+Theorem C13_step : forall h s o h' s', WF h s -> Inv h s -> step (h, s) o = Some (h', s') -> WF h' s' /\ Inv h' s'.
+Proof. exact step_wf_inv. Qed.
+Print Assumptions C13_step.
+
+Theorem C13_reachable : forall K m la ba ops h' s',
+  run_ops (init K m la ba) ops = Some (h', s') -> WF h' s' /\ Inv h' s'.
+Proof. exact run_ops_wf_inv. Qed.
+Print Assumptions C13_reachable.
+
+(* ... so the member lists partition the points *)
+Theorem C13_partition : forall h s labels, WF h s -> Inv h s -> state_labels h s = Some labels ->
+  Forall (fun c => c < state_K h s) labels ->
+  Permutation (concat (map (cluster_members h) (state_clusters h s))) (seq 0 (length labels)).
+Proof. exact inv_partition. Qed.
+Print Assumptions C13_partition.
+
+(* assigning a new labelling re-derives membership immediately *)
+Theorem C13_setter_immediate : forall h s ls h' s', WF h s -> Inv h s ->
+  step (h, s) (OpSetLabels ls) = Some (h', s') ->
+  s' = s /\ state_labels h' s = Some ls /\
+  (forall k c, nth_error (state_clusters h' s) k = Some c -> cluster_members h' c = positions ls k).
+Proof. exact set_labels_immediate. Qed.
+Print Assumptions C13_setter_immediate.
+
+(* no phase alters the labelling, membership or fitted statistics of anything that existed before
+   it ran: every pre-existing object is bit-for-bit unchanged ... *)
+Theorem C13_frame_repopulate : forall h s spread order draws h' s', WF h s ->
+  phase_repopulate h s spread order draws = Some (h', s') -> unchanged h h'.
+Proof. exact frame_repopulate. Qed.
+Print Assumptions C13_frame_repopulate.
+Theorem C13_frame_statistics : forall h s b h' s', WF h s -> phase_statistics h s b = Some (h', s') -> unchanged h h'.
+Proof. exact frame_statistics. Qed.
+Print Assumptions C13_frame_statistics.
+Theorem C13_frame_optimise : forall h s mrf h' s', WF h s -> phase_optimise h s mrf = (h', s') -> unchanged h h'.
+Proof. exact frame_optimise. Qed.
+Print Assumptions C13_frame_optimise.
+(* ... except relabel's scoring cache in the clusters of the state it was given:
+   inverse_covariance := that cluster's own MRF object, log-determinant rewritten *)
+Theorem C13_frame_relabel : forall h s ls cost h' s', WF h s -> phase_relabel h s ls cost = (h', s') ->
+  forall l, l < length h ->
+    (~ In l (state_clusters h s) -> get h' l = get h l) /\
+    (In l (state_clusters h s) -> forall mem ec mean ti cc ic ld,
+        get h l = Some (OCluster mem ec mean ti cc ic ld) ->
+        exists ld', get h' l = Some (OCluster mem ec mean ti cc ti ld')).
+Proof. exact frame_relabel. Qed.
+Print Assumptions C13_frame_relabel.
+
+(* a deep copy shares nothing mutable with its source: every object reachable from the copy is
+   fresh (incl. array-valued arguments, since d0fb27e), the source is unchanged, and the copy
+   carries the same labels and membership.  Stated for every reachable configuration. *)
+Theorem C13_deep_copy_disjoint : forall K m la ba ops h s h' s',
+  run_ops (init K m la ba) ops = Some (h, s) -> state_labels h s <> None ->
+  state_deep_copy h s = (h', s') ->
+  unchanged h h' /\ Forall (fun l => length h <= l) (state_reach h' s') /\ WF h' s' /\
+  state_labels h' s' = state_labels h s /\
+  map (cluster_members h') (state_clusters h' s') = map (cluster_members h) (state_clusters h s).
+Proof. exact deep_copy_fresh_reachable. Qed.
+Print Assumptions C13_deep_copy_disjoint.
+
+(* the hazard the phases avoid: assigning labels to a SHALLOW copy re-derives membership on the
+   cluster objects it shares with its source - the source keeps its labels but its clusters'
+   member lists change; so the invariant is not vacuous, and copying the clusters first (as every
+   phase does) is what makes it hold *)
 Example C13_shallow_aliasing_example :
   let '(h0, s0) := init 2 1 false false in
   match run_ops (h0, s0) [OpSetLabels [0;0;1;1]; OpShallow; OpSetLabels [1;1;0;0]] with
